@@ -131,6 +131,13 @@ CHECKS = {
         "sink next to a second sink and a second event; every token sequence (C07 generator, length <= 3 full alphabet, 4-5 reduced) that the parser "
         "accepts, validated and evaluated (2 million evaluations quick). Oracle: no panic, no killed worker; an error raised by a statement is "
         "catchable by try/except; a failing sink does not fail its caller"),
+ "C05": dict(engine="engine-B", cat="exploration", ref="DESIGN.md 5.2, 7/C05, 9a", note="reading an undefined name yields NULL (pinned by the suite); every block is entered once per program; reads of the argument of add/del after the call are left open; a failing statement inside try has no effect", tech="bounded exhaustive enumeration of programs and container operation sequences against boring reference models written in Go (environment chain, closures as Go values, slice/map model)",
+   text="scoping: global definition x outer block kind (if, for, function, mutex, try) x outer statement (none, assignment, let) x inner block kind x inner "
+        "statement x late let, probed at three levels (900 programs) against an environment-chain model; functions: parameters x 5 default kinds x 0-3 "
+        "arguments, closures, recursion with locals, lexical-not-dynamic resolution, fresh locals, no leaks, first-class use; objects: template "
+        "properties, init arguments, this, independent instances, single / multiple / two-level inheritance with super constructors; value vs reference "
+        "semantics for all kinds through names and parameters, nested paths, write-then-read for number and string keys; containers: every sequence of "
+        "<= 3 (thorough 4) operations over 14 list/map operations on two aliased names followed by 10 probes, against a Go slice/map model"),
 }
 
 ENGINES = [
